@@ -22,7 +22,7 @@ type quiet struct{}
 
 func (quiet) Name() string                                  { return "quiet" }
 func (quiet) Configure(config map[string]interface{}) error { return nil }
-func (quiet) Printf(format string, v ...interface{})       {}
+func (quiet) Printf(format string, v ...interface{})        {}
 
 // '#' is only meaningful as the final level ("#/" suffix, added by render): levels are a, b, c, +
 var atoms = []string{"a", "b", "c", "+"}
